@@ -30,6 +30,10 @@ def run_case(cs, ctx):
     if crit in ('lmb', 'lsb', 'mincostlsb'):
         prof['spec'] = {'na': 3 if (cs // 9) % 3 else 2,
                         'shapes': ['dense', 'big_targets', 'one_lecturer', 'lec_gt_students', 'tight_lecturer', 'lowerq']}
+    if crit in ('mincost', 'minsqcost'):
+        prof['spec'] = {'shapes': ['dense', 'no_ties', 'lowerq', 'lowerq', 'tight_lecturer', 'one_lecturer']}
+        prof['opts'] = dict(prof['opts'], twopl=True)
+        prof['medium_rate'] = 0.4
     if crit in ('gen', 'gre'):
         prof['spec'] = {'shapes': ['dense', 'long_lists', 'no_ties', 'lowerq', 'tight_lecturer']}
     r = lc.lp_case(cs, ctx, prof, probe_rate=0.08 if quick else 0.3, probe_cap=48 if quick else 160)
